@@ -1440,8 +1440,8 @@ static void MPSreadBounds(MPSInput& mps, LPColSetBase<Rational>& cset, const Nam
                   std::cerr << e.what() << '\n';
                }
 
-            // ILOG extension (Integer Bound)
-            if(mps.field1()[1] == 'I')
+            // ILOG extension (Integer Bound): LI and UI, but not MI
+            if((*mps.field1() == 'L' || *mps.field1() == 'U') && mps.field1()[1] == 'I')
             {
                if(intvars != nullptr)
                   intvars->addIdx(idx);
